@@ -6,8 +6,9 @@ E2 / an *independent enumerator* of the language of a grammar over the IR of `Mo
 *tags*: for every leaf, left to right, the id of the regex terminal it instantiates (or `none` for a
 literal).  Every intermediate list is cut to `lim` entries and alternatives are tried from position `rot`
 (both only select a subset).  `Props/C05.lean` proves every enumerated tree `Valid` (a machine-checked
-derivation witness travels with every word); `regexGreedy` is the decidable side condition "every regex leaf
-of the witness is what one greedy `re.match` returns at its position".
+derivation witness travels with every word) and a bounded derivation `DerNT`; the decidable side condition of
+C05 on a witness ("every leaf is what one scan of its terminal reads at its column") is `Model/Scan.lean:
+firstFail` / `inClass`.
 
 Nothing here looks at the parser: the enumerator only follows the grammar.  No imports beyond the IR.
 -/
@@ -117,7 +118,7 @@ def DerNT (G : Grammar) (inst : Inst) (c : Nat) :
     ∃ body g, G.rule s = some body ∧ DerWith inst c (DerNT G inst c d) body g ∧
       f = ([Tree.mk (.nt s) a r g.1], g.2)
 
-/-! ### the side condition of C05: regex leaves are greedy matches -/
+/-! ### serialised length of a leaf (used by the side condition of C05, `Model/Scan.lean: firstFail`) -/
 
 /-- length of a leaf in eighths of an input unit (`binary`: text is written as UTF-8) -/
 def leafLen8 (binary : Bool) : Leaf → Option Nat
@@ -129,22 +130,6 @@ def leafLen8 (binary : Bool) : Leaf → Option Nat
     else some (8 * s.length)
   | .bytes b => some (8 * b.length)
   | .bit _ => some 1
-
-/-- Walk the leaves of a witness over the serialised word: every leaf that instantiates regex `r` must
-    start at a unit boundary and be exactly what the greedy oracle `Rg r rest` (`re.match` on the rest of the
-    word) returns there. -/
-def regexGreedy (Rg : Nat → List Nat → Option Nat) (binary : Bool) (word : List Nat) :
-    List Leaf → List (Option Nat) → Nat → Bool
-  | [], _, _ => true
-  | l :: ls, tags, off8 =>
-    match leafLen8 binary l with
-    | none => false
-    | some n8 =>
-      let here := match tags.head? with
-        | some (some r) =>
-          off8 % 8 == 0 && n8 % 8 == 0 && Rg r (word.drop (off8 / 8)) == some (n8 / 8)
-        | _ => true
-      here && regexGreedy Rg binary word ls tags.tail (off8 + n8)
 
 end Enum
 end FV
